@@ -80,7 +80,7 @@ func (G *gen) census() error {
 	return nil
 }
 
-var stateOrder = []string{"empty", "populated", "ceremony", "epoch1", "populated+emptyhead", "epoch1+emptyhead"}
+var stateOrder = []string{"empty", "populated", "ceremony", "epoch1", "populated+emptyhead", "epoch1+emptyhead", "ceremony2"}
 
 func runGenerated(c *hx.Ctx) error {
 	G := &gen{c: c, r: rand.New(rand.NewSource(c.Seed*104729 + 11)), g: newGuard(caseTimeout()), seed: c.Seed}
